@@ -22,7 +22,7 @@ import (
 func TestC09(t *testing.T) {
 	r := report.Start("C09")
 	defer r.Finish()
-	npure := r.Pick(40000, 1500000)
+	npure := r.Cases(40000, 1500000)
 	for i := 0; i < npure; i++ {
 		id := fmt.Sprintf("pure/%d", i)
 		if !r.Want(id, i) {
@@ -30,7 +30,7 @@ func TestC09(t *testing.T) {
 		}
 		c09Pure(r, id)
 	}
-	nh := r.Pick(320, 12000)
+	nh := r.Cases(320, 12000)
 	for i := 0; i < nh; i++ {
 		id := fmt.Sprintf("hist/%d", i)
 		if !r.Want(id, i) {
